@@ -320,12 +320,18 @@ def run_case(case):
                 pinfos.append({'interval': _ticks(pi.interval), 'last_main': _ticks(pi.last_main),
                                'last_slow': _ticks(pi.last_slow), 'fast': bool(pi.fast_flag),
                                'pending': sorted(pi.pending_errors),
-                               'polled': [int(r.__name__[6:]) for _, r, _ in pi.polled_parameters],
+                               'polled': [_pidx(r.__name__) for _, r, _ in pi.polled_parameters],
                                'ts': [_ticks(m.parameters[f'p{i}'].timestamp) for i in range(len(case['mods'][len(pinfos)]['params']))]})
         return {'log': run.log, 'end': end, 'started': started, 'now': run.now, 'used': run.used,
                 'pinfo': pinfos, 'fired': run.fired, 'calls': run.calls, 'flag': run.flag, 'alive': len(modlist) > 0}
     finally:
         mb.time = orig_time
+
+
+def _pidx(name):
+    """read_p<i> -> i; any other read function (never expected in the poll list) -> 99"""
+    tail = name[len('read_p'):]
+    return int(tail) if name.startswith('read_p') and tail.isdigit() else 99
 
 
 def _ticks(x):
@@ -708,7 +714,7 @@ def small_scope_cases():
 
 def gen_cases(seed, tier):
     rng = random.Random(seed * 1000003 + 13)
-    n = {'quick': 3000, 'thorough': 40000, 'search': 40000}[tier]
+    n = {'quick': 4000, 'thorough': 40000, 'search': 40000}[tier]
     cases = [rand_case(rng, 40 if tier == 'quick' else 80) for _ in range(n)]
     cases.extend(small_scope_cases() if tier != 'quick' else small_scope_cases()[::5])
     return cases
